@@ -231,6 +231,13 @@ class ExcAnalysis:
                         ob(n, 'reraise', nm, 'bare raise', explicit=True, facts=A.facts_at(n))
                 else:
                     nm = self.exc_name(fn, n.exc)
+                    if nm == 'RecursionError':
+                        # what the interpreter itself does at its recursion limit, said explicitly (a value that contains
+                        # itself, nesting beyond any depth): depth of the input is out of reach of this analysis either way
+                        ob(n, 'raise', nm, 'raise RecursionError', explicit=True, facts=A.facts_at(n),
+                           discharged='not decided: RecursionError stands for the interpreter\'s own limit on self-containing / arbitrarily '
+                                      'deep values, which this analysis does not bound (DESIGN section 3, C13 / C15 "not decided")')
+                        continue
                     ob(n, 'raise', nm, f'raise {nm.split(".")[-1]}', explicit=True, facts=A.facts_at(n))
             elif isinstance(n, ast.Assert):
                 ob(n, 'assert', 'AssertionError', 'assert statement', explicit=True,
@@ -2028,6 +2035,47 @@ class ExcAnalysis:
         return False
 
     # -- satisfiability of a path (exhaustive if/elif chains over enums) -----------------------------------------------
+    def _revisit_guard(self, fn: FuncInfo, node: ast.AST) -> Optional[str]:
+        """A raise under `id(x) in seen` inside a walk along construction-fixed links (termination.chain_walk_forever), where
+        `seen` is a local set that only ever receives `id(x)` of the walked objects: the objects of the chain are pairwise
+        distinct (no cycle), so the guard is false on every turn."""
+        loop = self.flow.enclosing(node, (ast.While,))
+        if loop is None:
+            return None
+        from .termination import chain_walk_forever, chain_walk_while
+        info = chain_walk_forever(self.prog, self.cg, fn, loop)
+        if info is None:
+            w_ = chain_walk_while(self.prog, self.cg, fn, loop)
+            info = (w_[0], None, w_[1]) if w_ else None
+        if info is None:
+            return None
+        x = info[0]
+
+        def id_of_x(e) -> bool:
+            return isinstance(e, ast.Call) and isinstance(e.func, ast.Name) and e.func.id == 'id' and len(e.args) == 1 and \
+                isinstance(e.args[0], ast.Name) and e.args[0].id == x and self.prog.resolve_name(fn.module, 'id') is None
+        for c, pol in self.flow.path_conditions(node):
+            if pol and isinstance(c, ast.Compare) and len(c.ops) == 1 and isinstance(c.ops[0], ast.In) and id_of_x(c.left) and \
+                    isinstance(c.comparators[0], ast.Name):
+                seen = c.comparators[0].id
+                d = self.cg.env(fn).single_def(seen)
+                empty = isinstance(d, ast.Call) and isinstance(d.func, ast.Name) and d.func.id == 'set' and not d.args
+                writes_ok = True
+                for y in iter_own_nodes(fn.node):
+                    if isinstance(y, ast.Name) and y.id == seen and isinstance(y.ctx, ast.Load):
+                        par = self.prog.parent(y)
+                        if isinstance(par, ast.Compare):
+                            continue
+                        call = self.prog.parent(par) if isinstance(par, ast.Attribute) else None
+                        if isinstance(par, ast.Attribute) and par.attr == 'add' and isinstance(call, ast.Call) and len(call.args) == 1 and \
+                                id_of_x(call.args[0]) and self.flow.enclosing(call, (ast.While,)) is loop:
+                            continue
+                        writes_ok = False
+                if empty and writes_ok:
+                    return ('unreachable: `' + ast.unparse(c) + '` - ' + info[2] + '; `' + seen + '` holds the identities of the objects '
+                            'passed so far, which are pairwise distinct')
+        return None
+
     def path_unsat(self, fn: FuncInfo, node: ast.AST) -> Optional[str]:
         conds = self.flow.path_conditions(node)
         if not conds:
@@ -2149,7 +2197,7 @@ class ExcAnalysis:
                 if o.discharged:
                     continue
                 if o.explicit:
-                    why = self.path_unsat(fn, o.node)
+                    why = self.path_unsat(fn, o.node) or self._revisit_guard(fn, o.node)
                     if why:
                         o.discharged = why
                         continue
